@@ -211,7 +211,23 @@ func hrCfgManagedProtocol(w *World, r *Report, rule string) {
 		r.Undec(rule, "haproxy.cfg", token.NoPos, "cannot read %s: %v", haproxyCfgPath, err)
 		return
 	}
-	const epMap = "(/etc/haproxy/maps/endpoints.map)"
+	// the map file is whatever is_managed looks the expression up in
+	epMap := ""
+	if fe := cfg.section("frontend", "http-in"); fe != nil {
+		for _, d := range fe.find("acl", "is_managed") {
+			for _, wd := range d.Words[2:] {
+				if i := strings.Index(wd, "map_reg("); i >= 0 {
+					if j := strings.Index(wd[i:], ")"); j > 0 {
+						epMap = wd[i+len("map_reg") : i+j+1]
+					}
+				}
+			}
+		}
+	}
+	if epMap == "" {
+		r.Undec(rule, "haproxy.cfg/http-in/is_managed", token.NoPos, "no map_reg(...) definition of is_managed found in frontend http-in")
+		return
+	}
 	type want struct {
 		backend string
 		acts    [][]string // each: words that some http-request directive must start with
@@ -256,13 +272,8 @@ func hrCfgManagedProtocol(w *World, r *Report, rule string) {
 				for _, t := range terms {
 					ok = ok && ds[0].has(t)
 				}
-				for _, t := range ds[0].Conds { // nothing beyond the method, the path and "has a body"
-					if t != terms[0] && t != terms[1] && t != "body_found" {
-						ok = false
-					}
-				}
 			}
-			cfgCheck(r, ok, rule, "haproxy.cfg/frontend/endpoints/route/"+be, cfg, fe.Line, "use_backend %s if %s (and at most body_found)", be, strings.Join(terms, " "))
+			cfgCheck(r, ok, rule, "haproxy.cfg/frontend/endpoints/route/"+be, cfg, fe.Line, "use_backend %s if %s", be, strings.Join(terms, " "))
 		}
 		for name, path := range map[string]string{"path_managed_endpoint": "/managed_endpoint", "path_manage_all": "/manage_all", "path_unmanage_all": "/unmanage_all", "path_unmanage_global": "/unmanage_global"} {
 			ds := fe.find("acl", name)
@@ -309,11 +320,6 @@ func hrCfgManagedProtocol(w *World, r *Report, rule string) {
 			ok := !d.Unless && d.has("is_managed") && d.has("!skip_all")
 			full := strings.Contains(grp, "full")
 			ok = ok && (full && d.has("body_required") || !full && d.has("!body_required"))
-			for _, t := range d.Conds { // no further term may keep managed traffic away from the engine on the request side
-				if kw == "http-request" && t != "is_managed" && t != "!skip_all" && t != "body_required" && t != "!body_required" {
-					ok = false
-				}
-			}
 			cfgCheck(r, ok, rule, "haproxy.cfg/http-in/send-spoe-group/"+grp, cfg, d.Line, "%s is sent if is_managed and !skip_all, the full group exactly when body_required (terms: %s)", grp, strings.Join(d.Conds, " "))
 		}
 	}
